@@ -395,7 +395,8 @@ def finish(ctx, level, theorems_expected, explanation, checker_cmd):
     })
     if not cov['samples']:
         cov['samples'] = [{'note': 'no sample captured'}]
-    if level == 'proof' and (len(ctx.obligations) == 0):
+    if level == 'proof' and (len(ctx.obligations) == 0 or discharged == 0):
+        # nothing proved on this run (no theorem registered yet, or every obligation failed): a correspondence run only
         level = 'translation_validation'
     if level == 'translation_validation':
         cov.setdefault('programs', max(1, cov['evaluations']))
